@@ -63,7 +63,18 @@ func (f *rotateFile) rotate() error {
 
 	now := time.Now()
 
-	if err := os.Rename(f.path, fmt.Sprintf("%s.%s", f.path, now.Format("20060102150405"))); err != nil {
+	// several rotations can happen within the same second, never overwrite
+	// an earlier rotated file
+	name := fmt.Sprintf("%s.%s", f.path, now.Format("20060102150405"))
+	for i := 1; ; i++ {
+		if _, err := os.Lstat(name); err != nil {
+			break
+		}
+
+		name = fmt.Sprintf("%s.%s.%d", f.path, now.Format("20060102150405"), i)
+	}
+
+	if err := os.Rename(f.path, name); err != nil {
 		return err
 	}
 
